@@ -241,9 +241,27 @@ impl Args {
     /// pick budget by tier
     pub fn budget(&self, quick: u64, thorough: u64) -> u64 {
         let total = if self.thorough() { thorough } else { quick };
+        // instrumented passes (Miri, ASan, valgrind) run the same workload on a fraction of the budget
+        let total = match budget_scale() {
+            Some(f) => ((total as f64) * f).ceil() as u64,
+            None => total,
+        };
         // spread across shards, at least 1
         ((total + self.shards as u64 - 1) / self.shards as u64).max(1)
     }
+}
+
+/// VERIF_BUDGET_SCALE=<fraction>: set by the driver for passes under slow instrumentation
+pub fn budget_scale() -> Option<f64> {
+    std::env::var("VERIF_BUDGET_SCALE").ok().and_then(|s| s.parse::<f64>().ok()).filter(|f| *f > 0.0 && *f <= 1.0)
+}
+
+/// Name of the instrumentation this process runs under, if the driver said so (miri, asan, valgrind)
+pub fn instrumented() -> Option<String> {
+    if cfg!(miri) {
+        return Some("miri".into());
+    }
+    std::env::var("VERIF_INSTRUMENT").ok().filter(|s| !s.is_empty())
 }
 
 /// What a workload accumulates and finally writes as its shard report
